@@ -218,13 +218,15 @@ def gcdU64 (x y : Nat) : Nat := gcdLoop 200 x y
 /-- `xgcd` with `i64` coefficients (checked: overflow of the `i64` products is a refusal) -/
 def ckI64 (v : Int) : R Int := if -(2^63 : Int) ≤ v ∧ v < 2^63 then pure v else .error .overflow
 
+/-- `v as i64` for a `u64` value -/
+def asI64 (v : Nat) : Int := if v < 2^63 then Int.ofNat v else Int.ofNat v - 2^64
+
 def xgcdLoop : Nat → Nat → Nat → Int → Int → Int → Int → R (Nat × Int × Int)
   | 0, _, _, _, _, _, _ => .error .other
   | fuel+1, x, y, prevA, a, prevB, b =>
     if y = 0 then pure (x, prevA, prevB)
     else do
-      let q ← ckI64 (Int.ofNat (x / y))
-      let _ ← ckI64 (Int.ofNat (x % y))
+      let q := asI64 (x / y)          -- `(x / y) as i64` (reinterpreting cast, never panics)
       let qa ← ckI64 (q * a)
       let a' ← ckI64 (prevA - qa)
       let qb ← ckI64 (q * b)
@@ -361,26 +363,26 @@ def mulRow : Nat → List Nat → List Nat → Nat → Nat → R (List Nat × Na
     let (rest, cf) ← mulRow x ys rs (k-1) carry2
     pure (t :: rest, cf)
 
+/-- outer loop of `multiply_uint`: rows `i, i+1, …` for the remaining limbs of operand1 -/
+def mulOuter (b : List Nat) (n : Nat) : List Nat → Nat → List Nat → R (List Nat)
+  | [], _, res => pure res
+  | x :: xs, i, res =>
+    if i ≥ n then pure res else do
+      let jmax := min b.length (n - i)
+      let pre := res.take i
+      let suf := res.drop i
+      let (done, carry) ← mulRow x (b.take jmax) (suf.take jmax) jmax 0
+      let tail := suf.drop jmax
+      let tail' := if i + jmax < n then carry :: tail.drop 1 else tail
+      mulOuter b n xs (i+1) (pre ++ done ++ tail')
+
 /-- full `multiply_uint(op1, op2, result)` with `n = result.len()` -/
 def multiplyUint (a b : List Nat) (n : Nat) : R (List Nat) :=
   if a.isEmpty ∨ b.isEmpty then pure (List.replicate n 0)
   else if n = 1 then pure [wMul (a.headD 0) (b.headD 0)]
   else if sigWords a = 1 then multiplyUintU64 b (a.headD 0) n
   else if sigWords b = 1 then multiplyUintU64 a (b.headD 0) n
-  else do
-    let imax := min a.length n
-    let mut res := List.replicate n 0
-    for i in [0:imax] do
-      let x := a.getD i 0
-      let jmax := min b.length (n - i)
-      let pre := res.take i
-      let suf := res.drop i
-      -- process jmax limbs
-      let (done, carry) ← mulRow x (b.take jmax) (suf.take jmax) jmax 0
-      let tail := suf.drop jmax
-      let tail' := if i + jmax < n then carry :: tail.drop 1 else tail
-      res := pre ++ done ++ tail'
-    pure res
+  else mulOuter b n a 0 (List.replicate n 0)
 
 /-- shift helpers on a fixed count of limbs (value semantics of the in-place loops) -/
 def fromNat (n : Nat) (v : Nat) : List Nat :=
@@ -471,20 +473,20 @@ def compareUint (a b : List Nat) : Int :=
       if x < y then -1 else if x > y then 1 else go i
   go n
 
+/-- loop of `multiply_many_u64`: `k = operands.len()` (length of the temporary), `i` = index of `w` -/
+def mulManyLoop (k : Nat) : List Nat → Nat → List Nat → R (List Nat)
+  | [], _, res => pure res
+  | w :: ws, i, res => do
+    let tmp ← multiplyUintU64 res w k
+    mulManyLoop k ws (i+1) (tmp.take (i+1) ++ res.drop (i+1))
+
 /-- `multiply_many_u64(operands, result)`, `n = result.len()`; needs n ≥ operands.len() -/
 def multiplyManyU64 (ops : List Nat) (n : Nat) : R (List Nat) :=
   match ops with
   | [] => pure (List.replicate n 0)     -- result untouched (caller passes zeros)
   | o0 :: rest =>
-    if n < ops.length then .error .oob else do
-    let k := ops.length
-    let mut res := o0 :: List.replicate (n-1) 0
-    let mut i := 1
-    for w in rest do
-      let tmp ← multiplyUintU64 res w k
-      res := tmp.take (i+1) ++ res.drop (i+1)
-      i := i + 1
-    pure res
+    if n < ops.length then .error .oob
+    else mulManyLoop ops.length rest 1 (o0 :: List.replicate (n-1) 0)
 
 def geUint (a b : List Nat) : Bool := compareUint a b ≥ 0
 
